@@ -203,7 +203,7 @@ def emit_array_jobs(rng, tier):
     jobs = []
     for cname in ARRAY_CLASSES:
         nparts = CLASSES[cname]
-        for _ in range(6 if tier == "quick" else 60):
+        for _ in range(6 if tier == "quick" else 300):
             n_in = 3 + rng.below(3)
             inputs, re = [], []
             for _i in range(n_in):
@@ -246,7 +246,7 @@ def emit(seed, tier, with_numpy=False):
     jobs = []
     if with_numpy:
         jobs += emit_array_jobs(Splitmix(seed ^ 0xA88A), tier)
-    n_scalar = 40 if tier == "quick" else 400
+    n_scalar = 40 if tier == "quick" else 2500
     for cname, nparts in CLASSES.items():
         for _ in range(n_scalar):
             n_in = 1 + rng.below(3)
@@ -271,7 +271,7 @@ def emit(seed, tier, with_numpy=False):
         for c in (6.0, 7.0, 12.0, 33.0, 1024.0, 2000.0, -2000.0, -5.0):
             for name in ("pow_f", "powf"):
                 jobs.append({"kind": "scalar", "class": cname, "inputs": [[fbits(v) for v in parts]], "ops": bitsify([{"op": name, "a": 0, "c": c}])})
-    reps = 3 if tier == "quick" else 20
+    reps = 3 if tier == "quick" else 80
     for _ in range(reps):
         for drv, nin in (("first_derivative", 1), ("second_derivative", 1), ("third_derivative", 1), ("second_partial_derivative", 2), ("third_partial_derivative", 3)):
             x = point(rng, nin)
